@@ -28,6 +28,7 @@ type C11 struct {
 	boundary        counter
 	multiTakes      int
 	ghostCrit       map[string]string // basket denom → canonical date criterion as set by Create / UpdateDateCriteria
+	ghostCfg        map[string]string // basket denom → "credit type|auto-retire disabled|sorted allowed classes" as set by Create
 	critUpdates     int
 	pre1970Takes    int
 	skippedWindows  int
@@ -129,6 +130,20 @@ func (m *C11) trackCriteria(e *eng.Engine, t *eng.TxRec, where string) {
 	pre, post := t.Pre.V(), t.Post.V()
 	if m.ghostCrit == nil {
 		m.ghostCrit = map[string]string{}
+		m.ghostCfg = map[string]string{}
+	}
+	cfgOf := func(v *obs.View, b *basketapi.Basket) string {
+		var cl []string
+		for c := range v.BasketClasses[b.Id] {
+			cl = append(cl, c)
+		}
+		sort.Strings(cl)
+		return fmt.Sprintf("%s|%v|%v", b.CreditTypeAbbrev, b.DisableAutoRetire, cl)
+	}
+	for d, b := range pre.BasketByDenom {
+		if _, ok := m.ghostCfg[d]; !ok {
+			m.ghostCfg[d] = cfgOf(pre, b)
+		}
 	}
 	for d, b := range pre.BasketByDenom {
 		if _, ok := m.ghostCrit[d]; !ok {
@@ -142,6 +157,9 @@ func (m *C11) trackCriteria(e *eng.Engine, t *eng.TxRec, where string) {
 				if i < len(t.Resps) {
 					if r, ok := t.Resps[i].(*baskettypes.MsgCreateResponse); ok {
 						m.ghostCrit[r.BasketDenom] = critMsg(x.DateCriteria)
+						cl := append([]string{}, x.AllowedClasses...)
+						sort.Strings(cl)
+						m.ghostCfg[r.BasketDenom] = fmt.Sprintf("%s|%v|%v", x.CreditTypeAbbrev, x.DisableAutoRetire, cl)
 					}
 				}
 			case *baskettypes.MsgUpdateDateCriteria:
@@ -158,6 +176,12 @@ func (m *C11) trackCriteria(e *eng.Engine, t *eng.TxRec, where string) {
 		if got := critAPI(b.DateCriteria); got != want {
 			e.Violate("C11", "criterion-in-force", fmt.Sprintf("%s: basket %s stores the date criterion [%s] but Create / the authority's successful updates established [%s]", where, d, got, want))
 			m.ghostCrit[d] = got // report once
+		}
+		if wc, ok := m.ghostCfg[d]; ok {
+			if got := cfgOf(post, b); got != wc {
+				e.Violate("C11", "basket-configuration", fmt.Sprintf("%s: basket %s stores (credit type|auto-retire disabled|allowed classes) = %s but was created with %s (no message changes these)", where, d, got, wc))
+				m.ghostCfg[d] = got
+			}
 		}
 	}
 }
@@ -394,6 +418,9 @@ type C12 struct {
 	buys        int
 	nontrivial  strset
 	samples     []interface{}
+	// the expiration each open order's seller asked for (nil = none), from successful Sell / UpdateSellOrders
+	expGhost  map[uint64]*time.Time
+	expChecks int
 }
 
 func NewC12() *C12 {
@@ -538,6 +565,48 @@ func (m *C12) AfterTx(e *eng.Engine, t *eng.TxRec) {
 					m.touched[u.SellOrderId] = "updated"
 				}
 			}
+		}
+	}
+	// the expiration in force is the one the seller's own messages set
+	if m.expGhost == nil {
+		m.expGhost = map[uint64]*time.Time{}
+	}
+	for i, msg := range t.Msgs {
+		switch x := msg.(type) {
+		case *markettypes.MsgSell:
+			if i >= len(t.Resps) {
+				continue
+			}
+			if r, ok := t.Resps[i].(*markettypes.MsgSellResponse); ok && len(r.SellOrderIds) == len(x.Orders) {
+				for j, o := range x.Orders {
+					if o.Expiration == nil {
+						m.expGhost[r.SellOrderIds[j]] = nil
+					} else {
+						u := o.Expiration.UTC()
+						m.expGhost[r.SellOrderIds[j]] = &u
+					}
+				}
+			}
+		case *markettypes.MsgUpdateSellOrders:
+			for _, u := range x.Updates {
+				if _, known := m.expGhost[u.SellOrderId]; known && u.NewExpiration != nil {
+					v := u.NewExpiration.UTC()
+					m.expGhost[u.SellOrderId] = &v
+				}
+			}
+		}
+	}
+	for id, want := range m.expGhost {
+		o := post.Orders[id]
+		if o == nil {
+			delete(m.expGhost, id)
+			continue
+		}
+		m.expChecks++
+		got := expOf(o)
+		if (got == nil) != (want == nil) || (got != nil && !got.Equal(*want)) {
+			e.Violate("C12", "order-expiration-binding", fmt.Sprintf("tx step %d (%s): sell order %d was given the expiration %v by its seller but stores %v", t.Step, t.Tag, id, want, got))
+			delete(m.expGhost, id)
 		}
 	}
 	// an order created or updated in this transaction must expire strictly in the future
